@@ -179,9 +179,13 @@ def _run_unit(args):
     modname, unit, tier = args
     mod = sys.modules.get(modname) or __import__(modname, fromlist=['x'])
     rec = Rec()
+    # backstop: no work unit may run for hours on a mutated tree (checks put much tighter limits
+    # around individual cases; this one only guarantees that the run ends and says why)
+    limit = getattr(mod, 'UNIT_TIMEOUT', {}).get(tier, 900 if tier == 'quick' else 5400)
     try:
         os.chdir(scratch())
-        mod.run_unit(unit, tier, rec)
+        with timelimit(limit):
+            mod.run_unit(unit, tier, rec)
     except CaseTimeout as e:
         rec.violation('%s|unit-timeout|%s' % (mod.ID, _short(unit)),
                       'work unit hung: %s' % e, {'unit': unit})
